@@ -597,6 +597,17 @@ func (n *Node) WriteFrameExcept(exceptChannel *Channel, fr frame.Frame) error {
 
 func (n *Node) pushEvent(evt Event) {
 	verifPoint("node.pushEvent", nil)
+
+	// once the node is terminating, no more events are delivered.
+	// Without this check, the select below picks randomly between delivering and dropping
+	// while the node is closing, and a channel's events could reach the application with gaps,
+	// for instance a frame or a close event without the preceding open event.
+	select {
+	case <-n.terminate:
+		return
+	default:
+	}
+
 	select {
 	case n.chEvent <- evt:
 	case <-n.terminate:
